@@ -459,7 +459,9 @@ func (e *Engine) solve(res *HarnessResult) {
 		defer func() { pool <- w }()
 		t0 := time.Now()
 		if !fresh && !spec.NoLightPass {
-			v, _, ok := runIn(&w.c[0], 0, nassume, cond, false, t0, false)
+			// the vacuity witness is decided with EVERY real assumption (no cone
+			// of influence: the reduction itself relies on this witness)
+			v, _, ok := runIn(&w.c[0], 0, nassume, cond, false, t0, reach)
 			// a vacuity witness only needs the real assumptions to be satisfiable:
 			// facts follow from them once every obligation is discharged
 			if ok && (v == "unsat" || (reach && v == "sat")) {
@@ -470,9 +472,9 @@ func (e *Engine) solve(res *HarnessResult) {
 			}
 		}
 		t1 := time.Now()
-		v, model, ok := runIn(&w.c[1], 1, nassume, cond, fresh, t1, false)
+		v, model, ok := runIn(&w.c[1], 1, nassume, cond, fresh, t1, reach)
 		if !ok {
-			v, model, _ = runIn(&w.c[1], 1, nassume, cond, fresh, t1, false) // solver died while loading: one retry
+			v, model, _ = runIn(&w.c[1], 1, nassume, cond, fresh, t1, reach) // solver died while loading: one retry
 		}
 		if v == "sat" && !fresh && !reach && !spec.NoCOI {
 			// counterexample: ask again with EVERY assumption so that the model
